@@ -110,6 +110,15 @@ def run(rec):
                         exp = al * v + be * w
                         d = mpsgen.dense_state(res)
                         rec.check(np.allclose(d, exp, atol=1e-7), 'add:state', f'max dev {np.abs(d - exp).max()}', inp)
+                    # summands that carry different recorded norms (as left by un-normalised operator applications)
+                    pa, pb = psi0.copy(), phi0.copy()
+                    pa.norm, pb.norm = float(rng.uniform(0.3, 2.5)), float(rng.uniform(0.3, 2.5))
+                    va, vb = mpsgen.dense_state(pa), mpsgen.dense_state(pb)
+                    ok, res = rec.guarded('add(different norms):exception', lambda: pa.add(pb, al, be), inp)
+                    if ok:
+                        d = mpsgen.dense_state(res)
+                        rec.check(np.allclose(d, al * va + be * vb, atol=1e-7), 'add(different norms):state',
+                                  f'norms {pa.norm}, {pb.norm}: max dev {np.abs(d - al * va - be * vb).max()}', inp)
                 # ---- group / split
                 if L >= 2:
                     n = int(rng.integers(2, min(L, 3) + 1))
